@@ -113,6 +113,13 @@ func famRedef(r *rng) []string {
 			"del("+pn+")", obs,
 			fmt.Sprintf("%s = %d", pn, []int{a, other}[r.intn(2)]), obs, obs)
 	}
+	if r.intn(6) == 0 { // open finding: a recursive call sees a local function of an OUTER instance of the same function
+		base := 1 + r.intn(3)
+		res = append(res, fmt.Sprintf("gq = func(){%d}", base),
+			pickS(r, fmt.Sprintf("func fq(n) { if n == 0 { return gq() }; gq := func(){%d}; fq(n-1) }", base+5),
+				fmt.Sprintf("fq = func(n) { if n == 0 { return gq() }; gq = func(){%d}; self(n-1) }", base+5)),
+			"println(fq(0))", "println(fq(1))", "println(fq(0))")
+	}
 	if r.intn(4) == 0 { // a function drawing into an image (extension state) twice with the same arguments
 		res = append(res, `image.new("a", 8, 8)`,
 			`tri = func(x, c){ image.move_to("a", x, 1.); image.line_to("a", x + 4., 1.); image.line_to("a", x, 5.); image.close_path("a"); image.draw("a", c) }`,
